@@ -77,6 +77,12 @@ func (e *ContainerEdits) Apply(spec *oci.Spec) error {
 		return nil
 	}
 
+	if len(e.Env) > 0 {
+		// the generator replaces only variables it has added itself and
+		// appends all others: drop the ones which are about to be set
+		dropEnv(spec, e.Env)
+	}
+
 	specgen := ocigen.NewFromSpec(spec)
 	if len(e.Env) > 0 {
 		specgen.AddMultipleProcessEnv(e.Env)
@@ -266,6 +272,32 @@ func ValidateEnv(env []string) error {
 		}
 	}
 	return nil
+}
+
+// envName returns the name of an environment variable given as NAME=value.
+func envName(v string) string {
+	return strings.SplitN(v, "=", 2)[0]
+}
+
+// dropEnv removes the variables named by env from the environment of the
+// OCI Spec, so that setting them leaves a single definition behind.
+func dropEnv(spec *oci.Spec, env []string) {
+	if spec.Process == nil || len(spec.Process.Env) == 0 {
+		return
+	}
+
+	names := make(map[string]struct{}, len(env))
+	for _, v := range env {
+		names[envName(v)] = struct{}{}
+	}
+
+	kept := make([]string, 0, len(spec.Process.Env))
+	for _, v := range spec.Process.Env {
+		if _, ok := names[envName(v)]; !ok {
+			kept = append(kept, v)
+		}
+	}
+	spec.Process.Env = kept
 }
 
 // DeviceNode is a CDI Spec DeviceNode wrapper, used for validating DeviceNodes.
